@@ -36,7 +36,7 @@ def _ranges(tok):
 
 
 def dump(shim):
-    names = ["decomp", "comp", "hangul", "mcc", "ccc", "mcctab", "marks", "zs", "di", "vs", "sfb", "consts"]
+    names = ["decomp", "comp", "hangul", "mcc", "ccc", "mcctab", "marks", "zs", "di", "vs", "sfb", "consts", "consts2"]
     outs = vlib.run_lines(shim, [f"norm table {n}" for n in names], nproc=1)
     d = dict(zip(names, outs))
     for n, o in d.items():
@@ -68,6 +68,8 @@ def generate(shim):
     body += "-- ot_shaper.rs::MAX_COMBINING_MARKS, buffer.rs scratch flags, glyph_flag::DEFINED\n"
     for n, v in zip(["maxCombiningMarks", "flagNonAscii", "flagDI", "flagSpaceFallback", "flagCGJ", "glyphFlagDefined"], consts):
         body += f"def {n} : Nat := {v}\n"
+    body += "-- buffer.rs::HB_BUFFER_SCRATCH_FLAG_HAS_VARIATION_SELECTOR_FALLBACK\n"
+    body += f"def flagVSFallback : Nat := {int(d['consts2'].split()[0])}\n"
     body += "-- unicode_norm.rs::DECOMPOSITION_TABLE rows (ab, a, b), b = 0 for a singleton decomposition\n"
     body += chunked_list("decompTable", "Nat × Nat × Nat", triples(decomp))
     body += "-- unicode_norm.rs::COMPOSITION_TABLE rows (a <<< 32 ||| b, ab)\n"
